@@ -111,6 +111,8 @@ QByteArray buildStun(quint16 type, const QByteArray &id, const QList<QPair<quint
         putAttr(b, 0x0008, QByteArray(10, 'x'));
     } else if (integrity == 3) {
         putAttr(b, 0x0008, QByteArray(20, '\0'));
+    } else if (integrity == 7) {
+        putAttr(b, 0x0008, forgerKey.leftJustified(20, '#', true));
     } else if (integrity == 6) {
         // a correct FINGERPRINT first (a decoder that stops there never looks at what follows), then twenty bytes
         setLen(b, b.size() - 20 + 8);
@@ -231,7 +233,7 @@ public:
                 break;
             case 5:
                 // forge: target agent, component, target socket, kind, source, flags
-                p.ops.append(mkop(QStringLiteral("forge"), { (qint64)r.uniform(2), (qint64)r.uniform(2), (qint64)r.uniform(2), (qint64)r.uniform(8), (qint64)r.uniform(3), (qint64)r.uniform(256) }, {}, salt));
+                p.ops.append(mkop(QStringLiteral("forge"), { (qint64)r.uniform(2), (qint64)r.uniform(2), (qint64)r.uniform(2), (qint64)r.uniform(10), (qint64)r.uniform(3), (qint64)r.uniform(256) }, {}, salt));
                 break;
             }
         }
@@ -617,7 +619,66 @@ public:
                             attrs.append({ (quint16)(peerControlling ? 0x8029 : 0x802a), tb });
                         }
                     };
-                    if (kind < 4) {
+                    if (kind >= 8) {
+                        // structurally odd: attributes hidden inside an over-long container attribute, followed by twenty
+                        // arbitrary bytes dressed up as MESSAGE-INTEGRITY (a decoder whose attribute walk and whose
+                        // integrity check disagree about attribute boundaries would be fooled)
+                        quint16 type = 0x0001;
+                        if (kind == 9) {
+                            const Seen *req = nullptr;
+                            for (int i = seenRequests.size() - 1; i >= 0; --i) {
+                                if (seenRequests[i].src == tsock.host() && seenRequests[i].sport == tsock.port()) {
+                                    req = &seenRequests[i];
+                                    break;
+                                }
+                            }
+                            if (!req) {
+                                return;
+                            }
+                            id = req->data.mid(8, 12);
+                            if (srcMode != 0) {
+                                f.src = req->dst;
+                                f.sport = req->dport;
+                            }
+                            type = 0x0101;
+                        }
+                        static const quint16 containers[] = { 0x0001, 0x0020, 0x0004, 0x0006, 0x8022, 0x7777, 0x0009, 0x802c };
+                        const quint16 container = containers[fr.uniform(8)];
+                        QByteArray value;
+                        if (container == 0x0006) {
+                            value = goodUser;
+                            while (value.size() % 4) {
+                                value.append('\0');
+                            }
+                        } else if (container == 0x0009) {
+                            put16(value, 0);
+                            value.append((char)4);
+                            value.append((char)87);
+                        } else if (container != 0x8022 && container != 0x7777) {
+                            value = xorAddr(f.src, f.sport);
+                        }
+                        QByteArray hidden;
+                        if (flags & 4) {
+                            putAttr(hidden, 0x0025, QByteArray());
+                        }
+                        if (flags & 8) {
+                            QByteArray pr;
+                            put32(pr, 0x7effffff);
+                            putAttr(hidden, 0x0024, pr);
+                        }
+                        if (flags & 16) {
+                            putAttr(hidden, (quint16)(peer.controlling ? 0x802a : 0x8029), fr.bytes(8));
+                        }
+                        putAttr(hidden, 0x8022, fr.bytes((int)fr.range(0, 5) * 4));
+                        value += hidden;
+                        if (flags & 64) {
+                            attrs.append({ 0x0006, goodUser });
+                        }
+                        attrs.append({ container, value });
+                        integrity = 7;
+                        f.data = buildStun(type, id, attrs, 7, fr.bytes(20), fingerprint);
+                        what = kind == 9 ? QStringLiteral("binding success response with attributes smuggled inside an over-long attribute") : QStringLiteral("binding request with attributes smuggled inside an over-long attribute");
+                    } else if (kind < 4) {
                         // a binding request made up from scratch
                         if (!user.isEmpty()) {
                             attrs.append({ 0x0006, user });
@@ -721,7 +782,7 @@ public:
                         integrity = 5;
                         what = QStringLiteral("honest request altered in flight (stale integrity)");
                     }
-                    static const char *integ[] = { "no integrity", "integrity under a made-up key", "truncated integrity", "zero integrity", "integrity keyed with the username", "stale integrity", "fingerprint followed by bogus integrity" };
+                    static const char *integ[] = { "no integrity", "integrity under a made-up key", "truncated integrity", "zero integrity", "integrity keyed with the username", "stale integrity", "fingerprint followed by bogus integrity", "twenty arbitrary bytes as integrity" };
                     const QString line = QStringLiteral("forge: %1 with %2%3 from %4:%5 to %6 component %7").arg(what, QLatin1String(integ[integrity]), useCandidate && kind < 4 ? QStringLiteral(" and USE-CANDIDATE") : QString(), f.src.toString()).arg(f.sport).arg(target.name).arg(comp);
                     if (tr) {
                         tr->log(line);
